@@ -109,6 +109,10 @@ Example C06_equality_example :
   path_eq 2 (prs (rnd [[97]; [98]]%N)) 2 (prs (rnd [[97]; [98]]%N)) = true.
 Proof. vm_compute. repeat split. Qed.
 
+(** root(): from any path back to the root of the same filesystem; what follows is resolved from there *)
+Theorem C06_root_step : forall cur rest, resolve_steps cur (JRoot :: rest) = resolve_steps [] rest.
+Proof. reflexivity. Qed.
+
 (** the relative join used by AltrootFS::path and OverlayFS::{read,write}_path *)
 Theorem C06_join_relative : forall bs cs,
   goods bs = true -> goods cs = true -> cs <> [] ->
@@ -137,6 +141,7 @@ Print Assumptions C06_reachable_parent.
 Print Assumptions C06_reachable_child.
 Print Assumptions C06_parse_render.
 Print Assumptions C06_join_relative.
+Print Assumptions C06_root_step.
 Print Assumptions C06_equality.
 Print Assumptions C06_equality_components.
 Print Assumptions C06_equality_example.
